@@ -21,7 +21,7 @@ META = {
     "stubs": ["none for the geometry itself: RegionGeom.__init__ and throw run from /repo's source under the shim"],
     "assumptions": ["REAL mode with algebraised trigonometry", "generalisation cuts: every fresh symbol carries only facts that were proved about the real term in the init-lemma job"],
 }
-LEDGER = {"quick": 40, "thorough": 80}
+LEDGER = {"quick": 140, "thorough": 150}
 
 
 def _init(C, symbolic_det=False):
@@ -268,6 +268,165 @@ def beta_run():
     return run
 
 
+def along_run(s_zero, pinned=False):
+    """find_lat_long_along_traj on a RegionGeom whose per-event attributes are generalised to free
+    angles (the function only reads attributes): s = 0 must return the ground spot; for s > 0 the
+    distance from the Earth's centre must be the one implied by the emergence angle."""
+
+    def run(C):
+        ns = gm.load_geom()
+        g = object.__new__(ns["RegionGeom"])
+        R = SV.of(6378.1)
+        g.earth_radius = R
+        th, ph, thNV, azi = (core.free_angle(n) for n in ("thetaTrSubV", "phiTrSubV", "thetaNSubV", "aziAngVSubN"))
+        lat, lon = core.free_angle("latS"), core.free_angle("longS")
+        C.assume(lat.t >= -PI / 2, lat.t <= PI / 2, lon.t >= 0, lon.t < 2 * PI, th.t >= 0, th.t <= PI / 2, thNV.t >= 0, thNV.t <= PI / 2)
+        if pinned:
+            # one concrete family of trajectories (rational points of the unit circle), s still symbolic:
+            # the quantified claim fails for every s > 0 already here
+            def pin(a, s_, c_):
+                sa, ca = core.sincos(a)
+                C.assume(sa == core.rv(Fr(*s_)), ca == core.rv(Fr(*c_)))
+
+            pin(th, (3, 5), (4, 5))
+            pin(ph, (5, 13), (12, 13))
+            pin(thNV, (8, 17), (15, 17))
+            pin(azi, (0, 1), (1, 1))
+            pin(lat, (0, 1), (1, 1))
+            pin(lon, (0, 1), (1, 1))
+        np_ = ns["np"]
+        g.thetaTrSubV, g.phiTrSubV = SymArray([th]), SymArray([ph])
+        g.elevAngVSubN = SymArray([0.5 * np_.pi - thNV])  # as computed by throw
+        g.aziAngVSubN = SymArray([azi])
+        g.latS, g.longS = SymArray([core.sv_degrees(lat)]), SymArray([core.sv_degrees(lon)])
+        g.event_mask = SymArray([SV(c=True, kind="B")], "bool")
+        s = z3.Real("s")
+        if s_zero:
+            sv = SV(c=Fr(0))
+        else:
+            sv = SV(t=s)
+            C.assume(s > 0)
+        with load.Tracer(watch=["find_lat_long_along_traj"]) as tr:
+            latP, lonP = g.find_lat_long_along_traj(SymArray([sv]))
+        loc = tr.locals["find_lat_long_along_traj"]
+        d2 = SV.of(loc["dist2EarthCenter"][0]).term()
+        # emergence angle of this trajectory as throw defines it
+        (sV, cV), (sP, cP), (sN, cN) = core.sincos(th), core.sincos(ph), core.sincos(thNV)
+        sinbeta = cV * cN - sV * sN * cP  # == cos(theta_TrN)
+        Rt = R.term()
+        claims = {}
+        if s_zero:
+            (sl, cl), (so, co) = core.sincos(lat), core.sincos(lon)
+            (slp, clp), (sop, cop) = core.sincos(SV.of(latP[0])), core.sincos(SV.of(lonP[0]))
+            claims["s = 0: distance from the Earth's centre == R"] = d2 == Rt
+            claims["s = 0: reported latitude == ground-spot latitude"] = SV.of(latP[0]).t == lat.t
+            claims["s = 0: reported longitude points in the ground-spot direction (cos lat > 0)"] = z3.Implies(cl > 0, z3.And(sop == so, cop == co))
+        else:
+            claims["s > 0: distance from the Earth's centre is the one implied by the emergence angle: |X(s)|^2 == R^2 + s^2 + 2 R s sin(beta)"] = d2 * d2 == Rt * Rt + s * s + 2 * Rt * s * sinbeta
+        inputs = {"s": s, "thetaTrSubV": th.t, "phiTrSubV": ph.t, "thetaNSubV": thNV.t}
+        skip = _skip_origin if s_zero else (lambda t_, w_: "s > 0 is the subject of a known finding; only the consistency claim is examined")
+        return harness.Out(claims=claims, inputs=inputs, skip_defd=skip)
+
+    return run
+
+
+# ---------------------------------------------------------------------------------
+# F1: floating-point bug hunt on the face u4 = 0 (QF_FP; every sat is replayed on the real code)
+# ---------------------------------------------------------------------------------
+def _fp_dscr(h, R):
+    """bit-precise transcription of region_geometry.py:throw lines 120-138 at u4 = 0 for a double
+    detector altitude h (checked at run time against the real code on concrete altitudes)"""
+    F = z3.Float64()
+    rm = z3.RNE()
+    c = lambda x: z3.FPVal(x, F)  # noqa
+    core_alt = z3.fpAdd(rm, R, h)
+    R2 = z3.fpMul(rm, R, R)
+    A = z3.fpSub(rm, z3.fpMul(rm, core_alt, core_alt), R2)
+    Lmax = z3.fpSqrt(rm, A)
+    L3 = z3.FP("Lmax_cubed", F)  # libm pow(Lmax, 3): any double within 2 ulp of the rounded product
+    m = z3.fpMul(rm, z3.fpMul(rm, Lmax, Lmax), Lmax)
+    # pow(Lmax, 3) modelled as fl(fl(Lmax*Lmax)*Lmax); where libm's pow differs by an ulp the replay filters the model
+    side = L3 == m
+    r = z3.fpAdd(rm, z3.fpMul(rm, z3.fpMul(rm, c(-1.5), A), Lmax), z3.fpMul(rm, c(0.5), L3))
+    q = z3.fpNeg(A)
+    dscr = z3.fpAdd(rm, z3.fpMul(rm, z3.fpMul(rm, q, q), q), z3.fpMul(rm, r, r))
+    return dscr, side, (A, Lmax, L3, r, q)
+
+
+def _real_face(alt, u4=0.0):
+    import sys
+    import warnings
+
+    import numpy as np
+
+    from nuspacesim.config import NssConfig
+    from nuspacesim.simulation.geometry.region_geometry import RegionGeom
+
+    cfg = NssConfig()
+    cfg.detector.initial_position.altitude = alt
+    cap = {}
+
+    def prof(frame, event, arg):
+        if event == "return" and frame.f_code.co_name == "throw" and frame.f_code.co_filename.endswith("region_geometry.py"):
+            cap.update({k: frame.f_locals.get(k) for k in ("dscr", "r", "q")})
+
+    with warnings.catch_warnings(), np.errstate(all="ignore"):
+        warnings.simplefilter("ignore")
+        g = RegionGeom(cfg)
+        sys.setprofile(prof)
+        try:
+            g.throw(np.array([[0.5], [0.25], [0.5], [u4]]))
+        finally:
+            sys.setprofile(None)
+    return g, cap
+
+
+def fp_face_job(lo_alt=30.0, hi_alt=40.0):
+    import numpy as np
+
+    from astropy import units as u
+    from astropy.constants import R_earth
+
+    F = z3.Float64()
+    Rv = float(R_earth.to(u.km).value)
+    R = z3.FPVal(Rv, F)
+    verdicts = []
+    # 1. the transcription must agree bit for bit with the real code on concrete altitudes
+    ok = 0
+    for alt in (33.0, 400.0, 1.0, 525.0, 3.0, 1000.0, 17.25, 35999.0):
+        g, cap = _real_face(alt)
+        h = z3.FPVal(alt, F)
+        dscr, side, (A, Lmax, L3, r, q) = _fp_dscr(h, R)
+        real_L3 = float(np.float64(g.maxLOSpathLen) ** 3)
+        sgn = z3.simplify(z3.fpGT(z3.substitute(dscr, (L3, z3.FPVal(real_L3, F))), z3.FPVal(0.0, F)))
+        real_pos = bool(cap["dscr"][0] > 0)
+        if z3.is_true(sgn) != real_pos:
+            raise core.HarnessError(f"FP transcription of throw() lines 120-138 disagrees with the real code at altitude {alt}: real dscr {cap['dscr'][0]!r}")
+        ok += 1
+    # 2. is there an altitude for which the rounded discriminant is positive at u4 = 0 ?
+    h = z3.FP("det_alt", F)
+    dscr, side, _ = _fp_dscr(h, R)
+    s = z3.Solver()
+    s.set("timeout", 600000)
+    s.add(z3.fpGEQ(h, z3.FPVal(lo_alt, F)), z3.fpLEQ(h, z3.FPVal(hi_alt, F)), side, z3.fpGT(dscr, z3.FPVal(0.0, F)))
+    import time as _t
+
+    t0 = _t.time()
+    r = str(s.check())
+    dt = _t.time() - t0
+    v = {"obligation": f"face u4 = 0 (IEEE double, bit-precise, detector altitude in [{lo_alt}, {hi_alt}] km): the rounded discriminant q^3 + r^2 is never positive, so the trigonometric root in [Lmin, Lmax] is selected",
+         "verdict": r if r != "unsat" else "unsat", "time_s": round(dt, 3), "kind": "claim"}
+    if r == "sat":
+        m = s.model()
+        hv = m[h]
+        alt = float(hv.significand()) * 2.0 ** hv.exponent_as_long(False)  # decode the double
+        if hv.isNegative():
+            alt = -alt
+        v["model"] = {"det_alt": alt, "u4": 0.0}
+    verdicts.append(v)
+    return {"verdicts": verdicts, "queries": 1 + ok, "paths": 1, "solver_time": dt, "info": [{"transcription_checked_on": ok}]}
+
+
 def job_init(tier):
     return harness.run_job("RegionGeom.__init__ lemmas", init_lemmas_run(), timeout_ms=120000 if tier == "quick" else 600000, second=(tier == "thorough"))
 
@@ -289,10 +448,68 @@ def job_beta(tier):
     return harness.run_job("throw: emergence angle and validity mask", beta_run(), timeout_ms=60000 if tier == "quick" else 600000, second=(tier == "thorough"), prune_timeout_ms=4000)
 
 
+def job_along(s_zero, tier):
+    return harness.run_job(f"find_lat_long_along_traj ({'s = 0' if s_zero else 's > 0, one pinned trajectory family'})", along_run(s_zero, pinned=not s_zero),
+                           timeout_ms=60000 if tier == "quick" else 600000, prune_timeout_ms=4000, twin=s_zero)
+
+
+def job_fp_face(tier):
+    rng = (30.0, 40.0) if tier == "quick" else (1.0, 36000.0)
+    return harness.plain_job("floating-point face u4 = 0 (QF_FP bug hunt)", lambda: fp_face_job(*rng))
+
+
 def jobs(tier, seed):
     return [("init", "job_init", {"tier": tier}), ("bracket", "job_bracket", {"tier": tier}), ("cubic", "job_cubic", {"tier": tier}),
-            ("spot", "job_spot", {"tier": tier}), ("beta", "job_beta", {"tier": tier})]
+            ("spot", "job_spot", {"tier": tier}), ("beta", "job_beta", {"tier": tier}), ("along0", "job_along", {"s_zero": True, "tier": tier}),
+            ("alongs", "job_along", {"s_zero": False, "tier": tier}), ("fp", "job_fp_face", {"tier": tier})]
 
 
 def replay(v):
-    return {"reproduced": False, "key": None, "detail": "replay not implemented yet"}
+    import warnings
+
+    import numpy as np
+
+    job, ob = v.get("job", ""), v["obligation"]
+    m = {k: x for k, x in (v.get("model") or {}).items() if x is not None}
+    if job.startswith("floating-point face"):
+        alt = m.get("det_alt")
+        if alt is None:
+            return {"reproduced": False, "key": None, "detail": "no altitude in the model"}
+        g, cap = _real_face(alt, 0.0)
+        L, Lmin, Lmax, kept = float(g.losPathLen[0]), float(g.minLOSpathLen), float(g.maxLOSpathLen), bool(g.event_mask[0])
+        if kept and not (Lmin <= L <= Lmax):
+            return {"reproduced": True, "key": "throw: face u4 = 0, rounded discriminant positive: out-of-range path length passes the validity mask",
+                    "detail": f"detector altitude {alt!r} km, u = (0.5, 0.25, 0.5, 0.0): discriminant {float(cap['dscr'][0])!r} > 0, losPathLen = {L} outside [{Lmin}, {Lmax}], event kept"}
+        return {"reproduced": False, "key": None, "detail": f"altitude {alt}: L={L}, kept={kept}"}
+    if job.startswith("find_lat_long_along_traj (s > 0"):
+        from nuspacesim.config import NssConfig
+        from nuspacesim.simulation.geometry.region_geometry import RegionGeom
+
+        s = m.get("s", 1.0)
+        s = s if s and s > 0 else 1.0
+        cfg = NssConfig()
+        cfg.detector.initial_position.latitude, cfg.detector.initial_position.longitude = 0.4, 1.0
+        with warnings.catch_warnings(), np.errstate(all="ignore"):
+            warnings.simplefilter("ignore")
+            g = RegionGeom(cfg)
+            np.random.seed(1)
+            g.throw(400)
+            n = int(g.event_mask.sum())
+            lat, lon = g.find_lat_long_along_traj(np.full(n, s))
+        nv = lambda a, b: np.stack([np.cos(a) * np.cos(b), np.cos(a) * np.sin(b), np.sin(a)], -1)  # noqa
+        off = np.arccos(np.clip(np.sum(nv(lat, lon) * nv(g.valid_latS_rad(), g.valid_longS_rad()), -1), -1, 1))
+        R, b = g.earth_radius, g.beta_rad()
+        ref = np.arccos(np.clip((R + s * np.sin(b)) / np.sqrt(R * R + s * s + 2 * R * s * np.sin(b)), -1, 1))
+        rel = np.max(np.abs(off - ref) / np.maximum(ref, 1e-300))
+        if rel > 1e-3:
+            return {"reproduced": True, "key": "find_lat_long_along_traj(s > 0): ground offset inconsistent with the emergence angle",
+                    "detail": f"s = {s} km, 400 thrown events (seed 1): ground offset differs from the value implied by beta by up to {rel*100:.2f} % (azimuth convention of the frame chain differs from the emergence-angle formula)"}
+        return {"reproduced": False, "key": None, "detail": f"max relative offset error {rel}"}
+    return {"reproduced": False, "key": None, "detail": "no replay for this obligation"}
+
+
+MANIFEST_ENTRY = {
+    "level_text": "The real RegionGeom.__init__ and throw are executed symbolically with detector altitude, angle from limb, cone angle, azimuth range, detector latitude/longitude and u in the CLOSED cube symbolic (N=1; elementwise code). nlsat proves, through staged lemmas and generalisation cuts over the code's own terms: Lmax^2 = r_d^2 - R^2, r_d - R <= Lmin < Lmax, positivity of the normalisation bracket; on every feasible path of the cubic root selection the discriminant is <= 0, the selected root lies in [Lmin, Lmax], satisfies the inverse-CDF cubic in u4 and selected roots coincide; the ground spot direction is a unit vector, the reported (lat, long) point in that direction, |r_d D - R P|^2 = L^2 with explicit ECEF vectors, lat in [-90,90], long in [0,360]; cos(theta_NV), cos(theta_TrN) equal dot products of explicit vectors, beta = 90 deg - angle(trajectory, vertical), kept iff upward and beta < 42 deg; find_lat_long_along_traj(0) returns the ground spot. A bit-precise QF_FP query hunts for rounding failures on the face u4 = 0; find_lat_long_along_traj(s > 0) is examined on a pinned trajectory family. Both produce known findings (replayed on the real code).",
+    "level_note": "REAL arithmetic with algebraised trigonometry for the proofs (IEEE rounding outside, except the explicit QF_FP bug hunt whose transcription of lines 120-138 is checked against the real code at run time). The ground-spot / angle jobs execute a slice of the real throw (the cubic section cut out, L generalised with the facts proved by the cubic job). Poles (cos lat = 0) are excluded from the direction claims. Known findings: rounding at u4 = 0, positions for s > 0.",
+    "technique": "symbolic execution of the real NumPy source + z3 qfnra-nlsat with staged lemmas / generalisation cuts and algebraised trigonometry; QF_FP bug hunt with replay",
+}
